@@ -282,7 +282,7 @@ def native_build(q, shape, tree, outdir):
     exe = os.path.join(outdir, 'replay_bin')
     harness = os.path.join(VERIF, 'harness', q['harness'])
     srcs = [os.path.join(tree, s) for s in q.get('native_srcs', ['lib/src/tldevel.c'])]
-    cmd = ['gcc', '-DKV_NATIVE', '-DKALIGN_VERIF', '-g', '-O0', '-w', '-fsanitize=address,undefined', '-fno-sanitize-recover=undefined'] + VERSION_DEFS + \
+    cmd = ['gcc', '-DKV_NATIVE', '-DKALIGN_VERIF', '-include', os.path.join(VERIF, 'contracts', 'kv.h'), '-g', '-O0', '-w', '-fsanitize=address,undefined', '-fno-sanitize-recover=undefined'] + VERSION_DEFS + \
           q.get('defs', []) + shape_defs(shape) + include_flags(tree) + [harness] + srcs + ['-lm', '-o', exe]
     rc, out, err, _ = sh(cmd, timeout=300)
     if rc != 0:
